@@ -1,5 +1,6 @@
 SPECIFICATION Spec
 CONSTANT NOpt = 2
+CONSTANT Reent = TRUE
 CONSTANT MaxReq = 4
 VIEW View
 INVARIANT NoViol
